@@ -49,4 +49,15 @@ BestLocal(I, v, a) == LET S == {LocalCost(I, v, [a EXCEPT ![v] = d]) : d \in 1..
 ArgBestLocal(I, v, a) == {d \in 1..I.dsize[v] : LocalCost(I, v, [a EXCEPT ![v] = d]) = BestLocal(I, v, a)}
 \* hard-constraint satisfaction (DBA): no constraint at or above the infinity value
 Satisfies(I, a, infty) == \A i \in ConIdx(I) : EvalCon(I, I.cons[i], a) < infty
+\* ---- solution cost accounting (DCOP.solution_cost, relations.assignment_cost) ----
+\* the terms of a complete assignment: one per constraint, one per variable (its own value cost, 0 for a plain variable)
+HardCount(I, a, infty) == Cardinality({i \in ConIdx(I) : EvalCon(I, I.cons[i], a) = infty})
+                          + Cardinality({v \in VarSet(I) : I.varcost[v][a[v]] = infty})
+SoftSum(I, a, infty) == SumOver({i \in ConIdx(I) : EvalCon(I, I.cons[i], a) # infty}, LAMBDA i : EvalCon(I, I.cons[i], a))
+                        + SumOver({v \in VarSet(I) : I.varcost[v][a[v]] # infty}, LAMBDA v : I.varcost[v][a[v]])
+SolutionCost(I, a, infty) == <<HardCount(I, a, infty), SoftSum(I, a, infty)>>
+\* cost of an assignment over a set cs of constraints; with own costs of the variables of those constraints when requested
+ScopeUnion(I, cs) == UNION {ScopeOf(I.cons[i]) : i \in cs}
+AssignmentCost(I, cs, a, withVars) == SumOver(cs, LAMBDA i : EvalCon(I, I.cons[i], a))
+                                      + (IF withVars THEN SumOver(ScopeUnion(I, cs), LAMBDA v : I.varcost[v][a[v]]) ELSE 0)
 ====
